@@ -2974,6 +2974,293 @@ theorem parseHead_local_spellings {T : Tab} (hT : TabOk T) {N : Option Str} {C t
     rw [parseHead_formE hT hc]
     simpa [optStr] using this.symm
 
+/-! ### an integer literal is never a real literal or a datetime (the order of these tests in `_kbstr_to_cimval` is immaterial) -/
+
+/-- characters an integer literal can consist of -/
+def intCh (c : Char) : Bool := c == '+' || c == '-' || isHexDigit c || c == 'x' || c == 'X'
+
+theorem splitSign_chars (s : Str) : ∀ c ∈ s, c ∈ (splitSign s).2 ∨ c = '+' ∨ c = '-' := by
+  intro c hc
+  unfold splitSign
+  split
+  · simp at hc ⊢; rcases hc with rfl | hc; exact Or.inr (Or.inr rfl); exact Or.inl hc
+  · simp at hc ⊢; rcases hc with rfl | hc; exact Or.inr (Or.inl rfl); exact Or.inl hc
+  · exact Or.inl hc
+
+theorem splitSign_subset (s : Str) : (splitSign s).2 ⊆ s := by
+  unfold splitSign
+  split <;> (intro c hc; simp at hc ⊢; first | exact Or.inr hc | exact hc)
+
+theorem hex_of_digit {c : Char} (h : isDigit c = true) : isHexDigit c = true := by simp [isHexDigit, h]
+theorem hex_of_bin {c : Char} (h : isBinDigit c = true) : isHexDigit c = true := by
+  simp only [isBinDigit, Bool.or_eq_true, beq_iff_eq] at h; rcases h with rfl | rfl <;> decide
+theorem hex_of_oct {c : Char} (h : isOct17 c = true) : isHexDigit c = true := by
+  apply hex_of_digit
+  have e1 : ('1' : Char).toNat = 49 := by decide
+  have e7 : ('7' : Char).toNat = 55 := by decide
+  have e0 : ('0' : Char).toNat = 48 := by decide
+  have e9 : ('9' : Char).toNat = 57 := by decide
+  simp only [isOct17, isDigit, Bool.and_eq_true, decide_eq_true_eq, e0, e1, e7, e9] at h ⊢
+  omega
+
+theorem intLitCore_chars {s : Str} {i : Int} (h : intLitCore s = some i) : ∀ c ∈ s, intCh c = true := by
+  have body : ∀ c ∈ (splitSign s).2, isHexDigit c = true ∨ c = 'x' ∨ c = 'X' := by
+    unfold intLitCore at h
+    cases hsp : splitSign s with
+    | mk neg r =>
+    rw [hsp] at h
+    simp only at h ⊢
+    split at h
+    · cases h
+    · rename_i l hl
+      split at h
+      · rename_i hb
+        simp only [Bool.and_eq_true, Bool.or_eq_true, beq_iff_eq, decide_eq_true_eq, List.all_eq_true] at hb
+        intro c hc
+        have hr : r = r.dropLast ++ [l] := by
+          have hne : r ≠ [] := by intro e; subst e; simp at hl
+          have := List.dropLast_concat_getLast hne
+          rw [List.getLast?_eq_some_getLast hne] at hl; simp at hl; rw [hl] at this; exact this.symm
+        rw [hr] at hc
+        rcases List.mem_append.mp hc with hc | hc
+        · exact Or.inl (hex_of_bin (hb.2 c hc))
+        · simp at hc; subst hc; left; rcases hb.1.1 with rfl | rfl <;> decide
+      · split at h
+        · cases h
+        · rename_i hh t
+          intro c hc
+          split at h
+          · rename_i ho
+            simp only [Bool.and_eq_true, beq_iff_eq, List.all_eq_true] at ho
+            rcases List.mem_cons.mp hc with rfl | hc
+            · left; rw [ho.1]; decide
+            · exact Or.inl (hex_of_oct (ho.2 c hc))
+          · split at h
+            · rename_i hd
+              split at h
+              · rename_i htd
+                simp only [List.all_eq_true] at htd
+                rcases List.mem_cons.mp hc with rfl | hc
+                · left
+                  simp only [Bool.or_eq_true, beq_iff_eq] at hd
+                  rcases hd with (hd | rfl) | rfl
+                  · exact hex_of_oct hd
+                  · decide
+                  · decide
+                · exact Or.inl (hex_of_digit (htd c hc))
+              · cases h
+            · split at h
+              · rename_i h0
+                split at h
+                · rename_i x hs
+                  split at h
+                  · rename_i hx
+                    simp only [Bool.and_eq_true, Bool.or_eq_true, beq_iff_eq, decide_eq_true_eq, List.all_eq_true] at hx
+                    simp only [beq_iff_eq] at h0
+                    simp only [List.mem_cons] at hc
+                    rcases hc with rfl | rfl | hc
+                    · left; rw [h0]; decide
+                    · rcases hx.1.1 with rfl | rfl
+                      · exact Or.inr (Or.inl rfl)
+                      · exact Or.inr (Or.inr rfl)
+                    · exact Or.inl (hx.2 c hc)
+                  · cases h
+                · cases h
+              · cases h
+  intro c hc
+  rcases splitSign_chars s c hc with h1 | rfl | rfl
+  · rcases body c h1 with h2 | rfl | rfl
+    · simp [intCh, h2]
+    · decide
+    · decide
+  · decide
+  · decide
+
+theorem lowerAscii_n {c : Char} (h : lowerAscii c = 'n') : c = 'n' ∨ c = 'N' := by
+  unfold lowerAscii at h
+  split at h
+  · rename_i hr
+    right
+    have h1 := ofNat_small (c.toNat + 32) (by omega)
+    rw [h] at h1
+    have : ('n' : Char).toNat = 110 := by decide
+    rw [this] at h1
+    apply Char.toNat_inj.mp
+    have : ('N' : Char).toNat = 78 := by decide
+    omega
+  · exact Or.inl h
+
+theorem realLitCore_needs {s : Str} (h : realLitCore s = true) : '.' ∈ s ∨ 'n' ∈ s ∨ 'N' ∈ s := by
+  unfold realLitCore at h
+  simp only [Bool.or_eq_true, beq_iff_eq] at h
+  have special : ∀ w : Str, lowerAsciiS s = w → 'n' ∈ w → 'n' ∈ s ∨ 'N' ∈ s := by
+    intro w hw hn
+    rw [← hw] at hn
+    simp only [lowerAsciiS, List.mem_map] at hn
+    obtain ⟨c, hc, he⟩ := hn
+    rcases lowerAscii_n he with rfl | rfl
+    · exact Or.inl hc
+    · exact Or.inr hc
+  rcases h with ((h | h) | h) | h
+  · exact Or.inr (special _ h (by decide))
+  · exact Or.inr (special _ h (by decide))
+  · exact Or.inr (special _ h (by decide))
+  · left
+    unfold realBody at h
+    simp only at h
+    split at h
+    · rename_i f heq
+      have : '.' ∈ (splitSign s).2 := List.dropWhile_subset isDigit (by rw [heq]; simp)
+      exact splitSign_subset s this
+    · cases h
+
+theorem dtAccepts_has_dot {s : Str} (h : dtAccepts s = true) : '.' ∈ s := by
+  unfold dtAccepts at h
+  simp only at h
+  split at h
+  · cases h
+  · split at h
+    · cases h
+    · rename_i hseg
+      simp only [Bool.not_eq_true', Bool.not_eq_false, Bool.and_eq_true, beq_iff_eq] at hseg
+      have : '.' ∈ (s.drop 14).take 1 := by rw [hseg.1.2]; simp
+      exact List.drop_subset 14 s (List.take_subset 1 _ this)
+
+/-- an integer literal is neither a real literal nor a datetime text -/
+theorem intLit_exclusive {s : Str} {i : Int} (h : intLit s = some i) : realLit s = false ∧ dtAccepts s = false := by
+  have hc := intLitCore_chars h
+  have nodot : '.' ∉ s := fun hm => by have := hc _ hm; revert this; decide
+  have non : 'n' ∉ s ∧ 'N' ∉ s := ⟨fun hm => by have := hc _ hm; revert this; decide, fun hm => by have := hc _ hm; revert this; decide⟩
+  constructor
+  · apply Bool.eq_false_iff.mpr
+    intro hr
+    unfold realLit at hr
+    have hch : chomp s = s := chomp_of_last (fun l hl => by
+      intro e; subst e; have := hc _ (List.mem_of_getLast? hl); revert this; decide)
+    rw [hch] at hr
+    rcases realLitCore_needs hr with h1 | h1 | h1
+    · exact nodot h1
+    · exact non.1 h1
+    · exact non.2 h1
+  · apply Bool.eq_false_iff.mpr
+    intro hd; exact nodot (dtAccepts_has_dot hd)
+
+/-! ### a datetime text is never a real literal -/
+
+theorem dtAccepts_shape {s : Str} (h : dtAccepts s = true) :
+    ∃ d1 us σ off, s = d1 ++ '.' :: (us ++ σ :: off) ∧ d1 ≠ [] ∧ (∀ c ∈ d1, isDigStar c = true) ∧ (∀ c ∈ us, isDigStar c = true) ∧
+      (σ = '+' ∨ σ = '-' ∨ σ = ':') ∧ s.length = 25 := by
+  have hch := dtAccepts_chars h
+  unfold dtAccepts at h
+  simp only at h
+  split at h
+  · cases h
+  · rename_i hlen
+    have hlen' : s.length = 25 := by simpa using hlen
+    split at h
+    · cases h
+    · rename_i hseg
+      simp only [Bool.not_eq_true', Bool.not_eq_false, Bool.and_eq_true, beq_iff_eq, List.all_eq_true] at hseg
+      have hsg : ∃ σ, (s.drop 21).take 1 = [σ] ∧ (σ = '+' ∨ σ = '-' ∨ σ = ':') := by
+        split at h
+        · rename_i hts
+          simp only [Bool.and_eq_true, Bool.or_eq_true, beq_iff_eq] at hts
+          rcases hts.1 with e | e
+          · exact ⟨'+', e, Or.inl rfl⟩
+          · exact ⟨'-', e, Or.inr (Or.inl rfl)⟩
+        · split at h
+          · rename_i _ hiv
+            simp only [Bool.and_eq_true, beq_iff_eq] at hiv
+            exact ⟨':', hiv.1, Or.inr (Or.inr rfl)⟩
+          · cases h
+      obtain ⟨σ, hσ, hσv⟩ := hsg
+      have e1 := (List.take_append_drop 14 s).symm
+      have e2 : s.drop 14 = (s.drop 14).take 1 ++ s.drop 15 := by
+        have := (List.take_append_drop 1 (s.drop 14)).symm; simpa [List.drop_drop] using this
+      have e3 : s.drop 15 = (s.drop 15).take 6 ++ s.drop 21 := by
+        have := (List.take_append_drop 6 (s.drop 15)).symm; simpa [List.drop_drop] using this
+      have e4 : s.drop 21 = (s.drop 21).take 1 ++ s.drop 22 := by
+        have := (List.take_append_drop 1 (s.drop 21)).symm; simpa [List.drop_drop] using this
+      refine ⟨s.take 14, (s.drop 15).take 6, σ, s.drop 22, ?_, ?_, hseg.1.1, hseg.2, hσv, hlen'⟩
+      · calc s = s.take 14 ++ s.drop 14 := e1
+          _ = s.take 14 ++ ((s.drop 14).take 1 ++ s.drop 15) := by rw [← e2]
+          _ = s.take 14 ++ (['.'] ++ ((s.drop 15).take 6 ++ s.drop 21)) := by rw [hseg.1.2, ← e3]
+          _ = s.take 14 ++ (['.'] ++ ((s.drop 15).take 6 ++ ([σ] ++ s.drop 22))) := by rw [← hσ, ← e4]
+          _ = _ := by simp
+      · intro e
+        have : (s.take 14).length = 14 := by simp [List.length_take]; omega
+        rw [e] at this; simp at this
+
+theorem digStar_nondigit {c : Char} (h : isDigStar c = true) (hd : isDigit c = false) : c = '*' := by
+  simp only [isDigStar, Bool.or_eq_true, beq_iff_eq] at h
+  rcases h with h | h
+  · rw [h] at hd; cases hd
+  · exact h
+
+/-- first character after the leading digits of `a ++ x :: b` when `a` is digits-or-asterisks and `x` is no digit -/
+theorem dropWhile_digStar {a : Str} (ha : ∀ c ∈ a, isDigStar c = true) {x : Char} (hx : isDigit x = false) (b : Str) :
+    ∃ y t, (a ++ x :: b).dropWhile isDigit = y :: t ∧ (y = '*' ∨ (y = x ∧ t = b ∧ ∀ c ∈ a, isDigit c = true)) := by
+  induction a with
+  | nil => exact ⟨x, b, by simp [hx], Or.inr ⟨rfl, rfl, by simp⟩⟩
+  | cons c r ih =>
+    by_cases hc : isDigit c = true
+    · obtain ⟨y, t, e, hy⟩ := ih (fun z hz => ha z (by simp [hz]))
+      refine ⟨y, t, by simp [hc, e], ?_⟩
+      rcases hy with hy | ⟨h1, h2, h3⟩
+      · exact Or.inl hy
+      · exact Or.inr ⟨h1, h2, fun z hz => by rcases List.mem_cons.mp hz with rfl | hz; exact hc; exact h3 z hz⟩
+    · have hc' : isDigit c = false := by simpa using hc
+      exact ⟨c, r ++ x :: b, by simp [hc'], Or.inl (digStar_nondigit (ha c (by simp)) hc')⟩
+
+theorem dt_not_real {s : Str} (h : dtAccepts s = true) : realLit s = false := by
+  have hch := dtAccepts_chars h
+  obtain ⟨d1, us, σ, off, hs, hd1, hd1all, husall, hσ, hlen⟩ := dtAccepts_shape h
+  have hchomp : chomp s = s := chomp_of_last (fun l hl => (dtChar_props (hch l (List.mem_of_getLast? hl))).2.2.1)
+  apply Bool.eq_false_iff.mpr
+  intro hr
+  unfold realLit at hr
+  rw [hchomp] at hr
+  unfold realLitCore at hr
+  simp only [Bool.or_eq_true, beq_iff_eq] at hr
+  have hl : (lowerAsciiS s).length = 25 := by simp [lowerAsciiS, hlen]
+  rcases hr with ((hr | hr) | hr) | hr
+  · rw [hr] at hl; simp at hl
+  · rw [hr] at hl; simp at hl
+  · rw [hr] at hl; simp at hl
+  · -- realBody
+    obtain ⟨c0, r0, rfl⟩ : ∃ c0 r0, d1 = c0 :: r0 := by
+      cases d1 with
+      | nil => exact absurd rfl hd1
+      | cons a b => exact ⟨a, b, rfl⟩
+    have hc0 : c0 ≠ '-' ∧ c0 ≠ '+' := by
+      have := hd1all c0 (by simp)
+      constructor <;> (intro e; subst e; revert this; decide)
+    have hsp : splitSign s = (false, s) := by
+      rw [hs]; simp only [List.cons_append]
+      unfold splitSign
+      split
+      · rename_i heq; simp at heq; exact absurd heq.1 hc0.1
+      · rename_i heq; simp at heq; exact absurd heq.1 hc0.2
+      · rfl
+    rw [hsp] at hr
+    simp only at hr
+    unfold realBody at hr
+    simp only at hr
+    have hdot : isDigit '.' = false := by decide
+    obtain ⟨y, t, e, hy⟩ := dropWhile_digStar hd1all hdot (us ++ σ :: off)
+    rw [hs, e] at hr
+    rcases hy with rfl | ⟨rfl, rfl, _⟩
+    · simp at hr
+    · simp only [Bool.and_eq_true, decide_eq_true_eq] at hr
+      have hσd : isDigit σ = false := by rcases hσ with rfl | rfl | rfl <;> decide
+      obtain ⟨y2, t2, e2, hy2⟩ := dropWhile_digStar husall hσd off
+      rw [e2] at hr
+      have hne : (y2 == 'e' || y2 == 'E') = false := by
+        rcases hy2 with rfl | ⟨rfl, _, _⟩
+        · decide
+        · rcases hσ with rfl | rfl | rfl <;> decide
+      simp [hne] at hr
+
 /-! ### glue: format argument, namespace setter -/
 
 theorem formats_pin : Pywbem.Generated.uriFormats = ["standard", "canonical", "cimobject", "historical"] := by decide
